@@ -327,7 +327,8 @@ def expand_locals(fn, e, depth=3):
             for x in ast.walk(tg) if tg is not None else []:
                 if isinstance(x, ast.Name):
                     single.setdefault(x.id, []).extend([None, None])
-    single = {k: v[0] for k, v in single.items() if len(v) == 1 and v[0] is not None}
+    single = {k: v[0] for k, v in single.items() if len(v) == 1 and v[0] is not None and k not in fn.params and
+              not any(isinstance(x, ast.Name) and x.id == k for x in ast.walk(v[0]))}
 
     def ex(node, d):
         class S(ast.NodeTransformer):
